@@ -323,6 +323,16 @@ class World:
             return self.set_eq(interp, a.attrs['src'], b.attrs['src'])
         return ex.eq(a, b)
 
+    def posmap_store(self, interp, pm, key, value):
+        """pos[node] = (x, y): functional update of the two coordinate functions"""
+        if not (isinstance(key, VVal) and isinstance(value, VTuple) and len(value.items) == 2):
+            raise Unsupported('positions[node] = value of another shape')
+        ex = interp.ex
+        nx_, ny_ = ex.to_real(value.items[0]), ex.to_real(value.items[1])
+        ox, oy, k = pm.attrs['x'], pm.attrs['y'], key.t
+        pm.attrs['x'] = lambda n, ox=ox, k=k, v=nx_: z3.If(n == k, v, ox(n))
+        pm.attrs['y'] = lambda n, oy=oy, k=k, v=ny_: z3.If(n == k, v, oy(n))
+
     def set_eq(self, interp, a, b):
         """set(range(n)) == set(lst) (either order): a boolean e with its reading (semantics of set equality, T2):
         e implies every element of lst is in [0, n) and every v in [0, n) occurs in lst at position where(v); the second
@@ -499,6 +509,11 @@ class World:
                 return ex.ty_slice(obj, idx)
             if isinstance(idx, VInt):
                 return ex.ty_at(obj, idx.t)
+        if isinstance(obj, VObject) and obj.cls == 'posmap':
+            # the dict of positions of the drawing layout: node -> (x, y), as two functions on nodes
+            if not isinstance(idx, VVal):
+                raise Unsupported('positions[...] of a key that is not a node')
+            return VTuple([VReal(obj.attrs['x'](idx.t)), VReal(obj.attrs['y'](idx.t))])
         if isinstance(obj, VObject) and obj.cls == 'functor.ob':
             # F.ob[Ty(x)]: the image the user gave for a one-object type (precondition: it is given, and it is a type)
             F = obj.attrs['functor']
@@ -895,6 +910,12 @@ class World:
             else:
                 recv.segs.append(('lit', [args[0]]))
             return NONE
+        if isinstance(recv, VObject) and recv.cls == 'posmap' and name == 'items' and not args:
+            # the (key, value) pairs in insertion order; a value is read when the pair is produced (the view is live)
+            keys = recv.attrs['keys']
+            base = ex.register_base(BaseList('pos.items', keys.length(), lambda i, pm=recv: (lambda k_: VTuple([
+                k_, VTuple([VReal(pm.attrs['x'](k_.t)), VReal(pm.attrs['y'](k_.t))])]))(ex.list_at(keys, i))))
+            return VList.of_base(base)
         if isinstance(recv, VObject) and recv.cls == 'set' and name == 'add':
             base, k = recv.attrs['base'], recv.attrs['k']
             base = base if base is not None else getattr(ex, 'set_source', None)
